@@ -1,7 +1,7 @@
 use syn::{
     parse::{Parse, ParseStream},
     punctuated::Punctuated,
-    Meta, Token, Type,
+    Expr, Meta, Token, Type,
 };
 
 pub(crate) struct TypeWithPunctuatedMeta {
@@ -40,6 +40,16 @@ pub(crate) fn ungroup(mut ty: &Type) -> &Type {
     }
 
     ty
+}
+
+/// Looks through the invisible group that wraps an expression which comes from a fragment of a `macro_rules!` macro.
+#[inline]
+pub(crate) fn ungroup_expr(mut expr: &Expr) -> &Expr {
+    while let Expr::Group(group) = expr {
+        expr = group.expr.as_ref();
+    }
+
+    expr
 }
 
 #[inline]
